@@ -68,6 +68,28 @@ def label(qubits, rates, data, table, key):
     for i, q in enumerate(sorted(qubits)):
         out[q] = data[:, i]
     return out, table.get(key) or table.get(str(key))
+
+class Box:
+    def __init__(self, items, opts):
+        opts['seen'] = True
+        self._items = items
+        self._total = None
+
+    def total(self):
+        if self._total is None:
+            self._total = sum(self._items)
+        return self._total
+
+    def replace(self, items):
+        self._items = items
+
+def configure(job, labels: dict | None = None):
+    labels['job'] = job
+    return labels
+
+def twice(xs):
+    g = (x * x for x in xs)
+    return list(g), list(g)
 '''
     good = '''
 def make(a, opt=None):
@@ -88,10 +110,35 @@ def label(qubits, rates, data, table, key):
         out[q] = data[:, i]
     v = table.get(key)
     return out, table.get(str(key)) if v is None else v
+
+class Box:
+    def __init__(self, items, opts):
+        opts = dict(opts)
+        opts['seen'] = True
+        self._items = items
+        self._total = None
+
+    def total(self):
+        if self._total is None:
+            self._total = sum(self._items)
+        return self._total
+
+    def replace(self, items):
+        self._items = items
+        self._total = None
+
+def configure(job, labels: dict | None = None):
+    labels = dict(labels or {})
+    labels['job'] = job
+    return labels
+
+def twice(xs):
+    g = [x * x for x in xs]
+    return list(g), list(g)
 '''
     rel = 'cirq-core/cirq/work/zz_fixture.py'
     base = core.Repo()
-    for src, want in ((bad, {'z_fwd': 1, 'z_drop': 1, 'z_pair': 2, 'z_get': 1}), (good, {})):
+    for src, want in ((bad, {'z_fwd': 1, 'z_drop': 1, 'z_pair': 2, 'z_get': 1, 'z_ctor': 1, 'z_opt': 1, 'z_gen': 1, 'z_memo': 1}), (good, {})):
         r = core.Repo(overlay={rel: src}, base=base)
         ctx = report.Ctx('C18', 'quick', r)
         general.apply(ctx, 'C18')
